@@ -238,7 +238,11 @@ func (r *renderer) module() string {
 	}
 	r.body(1, m.Body)
 	for _, a := range m.Augments {
-		r.line(1, "augment %s {", q(r.pathBare(a.Target, a.Bare)))
+		ap := r.pathBare(a.Target, a.Bare)
+		if a.Relative {
+			ap = strings.TrimPrefix(ap, "/")
+		}
+		r.line(1, "augment %s {", q(ap))
 		if a.When != "" {
 			r.line(2, "when %s;", q(a.When))
 		}
